@@ -1288,6 +1288,8 @@ class Explorer:
 
     def __init__(self, max_paths=20000, solver_timeout_ms=60000, abstract_decode=False, max_failures=8):
         self.max_failures = max_failures
+        self.part = None                 # (i, n, depth): explore only the subtrees whose first `depth` finite choices hash to i mod n
+        self.count_failure = None        # optional predicate: does this failure count towards max_failures?
         self.solver = z3.Solver()
         self.solver.set('timeout', solver_timeout_ms)
         self.max_paths = max_paths
@@ -1310,6 +1312,7 @@ class Explorer:
         self.cov = set()
         self.vc_dump = []        # smt2 strings of a few VCs (for the second-solver cross-check)
         self.vc_dump_limit = 0
+        self.part_skipped = 0
         # per path
         self._reset_path()
 
@@ -1485,6 +1488,11 @@ class Explorer:
             self._record('c', 0, list(range(n - 1, 0, -1)))
             v = 0
         self.choices.append(v)
+        if self.part is not None and len(self.choices) == self.part[2]:
+            import zlib
+            if zlib.crc32(repr(self.choices).encode()) % self.part[1] != self.part[0]:
+                self.part_skipped += 1
+                raise self._abort()
         return v
 
     def concretize(self, t, cap=256, degrade=False):
@@ -1646,7 +1654,7 @@ class Explorer:
                     break
                 d = self.trace[-1]
                 d[1] = d[2].pop()
-                if len(self.failures) >= self.max_failures:
+                if len([f for f in self.failures if self.count_failure is None or self.count_failure(f)]) >= self.max_failures:
                     self.notes.add('stopped after %d failing paths' % len(self.failures))
                     break
                 if self.n_paths >= self.max_paths:
